@@ -32,7 +32,7 @@ type authScript struct {
 	Mode    string                `json:"mode"`
 	Source  string                `json:"source"`
 	Answers map[string][][]string `json:"answers"`
-	Kind    string                `json:"kind"`    // api (a batch request) | storage (a download through a batch action)
+	Kind    string                `json:"kind"`    // api (a batch request) | storage (a download through a batch action) | authd (the same, the action marked authenticated)
 	ActHost string                `json:"acthost"` // storage: the identity the action's href names
 	Form    string                `json:"form"`    // how redirects spell Location: abs | netpath | path
 	Cache   bool                  `json:"cache"`   // the in-process credential cache stands in front of the helper
@@ -98,11 +98,11 @@ func cmdAuth(args []string) {
 		h := http.HandlerFunc(func(rw http.ResponseWriter, r *http.Request) {
 			mu.Lock()
 			defer mu.Unlock()
-			if cur != nil && cur.Kind == "storage" && strings.HasSuffix(r.URL.Path, "/objects/batch") {
+			if cur != nil && (cur.Kind == "storage" || cur.Kind == "authd") && strings.HasSuffix(r.URL.Path, "/objects/batch") {
 				// the batch call that hands out the action is not under test: always answered, never logged
 				spell := []string{"Authorization", "authorization", "AUTHORIZATION"}[cur.ID%3]
 				rw.Header().Set("Content-Type", "application/vnd.git-lfs+json")
-				json.NewEncoder(rw).Encode(map[string]interface{}{"transfer": "basic", "objects": []map[string]interface{}{{"oid": storeOid, "size": len(storeContent),
+				json.NewEncoder(rw).Encode(map[string]interface{}{"transfer": "basic", "objects": []map[string]interface{}{{"oid": storeOid, "size": len(storeContent), "authenticated": cur.Kind == "authd",
 					"actions": map[string]interface{}{"download": map[string]interface{}{"href": urls[cur.ActHost] + "/store/" + storeOid,
 						"header": map[string]string{spell: "Basic " + base64.StdEncoding.EncodeToString([]byte("u-act:p"))}}}}}})
 				return
@@ -158,7 +158,7 @@ func cmdAuth(args []string) {
 				rw.Header().Set("Location", loc)
 				rw.WriteHeader(307)
 			default:
-				if cur != nil && cur.Kind == "storage" {
+				if cur != nil && (cur.Kind == "storage" || cur.Kind == "authd") {
 					rw.Header().Set("Content-Type", "application/octet-stream")
 					rw.Header().Set("Content-Length", fmt.Sprint(len(storeContent)))
 					rw.WriteHeader(200)
@@ -238,7 +238,7 @@ func cmdAuth(args []string) {
 					result = fmt.Sprintf("panic: %v", x)
 				}
 			}()
-			if s.Kind == "storage" {
+			if s.Kind == "storage" || s.Kind == "authd" {
 				dir, _ := os.MkdirTemp("", "authstore-")
 				defer os.RemoveAll(dir)
 				lfsdir := filepath.Join(dir, "lfs")
